@@ -158,6 +158,51 @@ def build(tier="quick", seed=0):
                                     replay=lambda w, wname=wname, body=body, ending=ending: {"call": "c17_history", "args": {"writer": wname, "body": "".join(body), "ending": ending}}, functions=FU,
                                     mode="histories with a refused write (x) between accepted ones"))
 
+    # a refused write after ANY number of accepted ones: the writer's own counters (integer attributes, if it keeps any) take arbitrary values before the refused write -
+    # a writer that checks records only for a while, or differently after some count, is the same writer in a later state
+    STATE = {}
+
+    def th_refused_step(wname):
+        mk, rd, path = WRITERS[wname]
+
+        def th():
+            fresh_fs()
+            STATE.clear()
+            for v in vs:
+                it.assume(z3.And(v >= 0, v < 2**31))
+            D = it.call(RD, ["c17/step", [("string", "s"), ("varint", "n")]], {})  # (the value that is refused is in the SECOND field: an encoder that stops there has the first one in the block)
+            w = mk(path)
+            written = [it.call(D, [], {"n": SInt(vs[0]), "s": "r0", "_generated": GEN})]
+            it.call(it.getattr_(w, "write"), [written[0]], {})
+            for k_, v_ in list(w.attrs.items()):
+                u_ = it.unbase(v_)
+                if isinstance(u_, int) and not isinstance(u_, bool):
+                    STATE[k_] = z3.Int(f"c17_state_{k_}")
+                    it.assume(STATE[k_] >= u_)
+                    w.attrs[k_] = SInt(STATE[k_])
+            bad = it.call(D, [], {"n": 2**70, "s": "refused", "_generated": GEN})
+            try:
+                it.call(it.getattr_(w, "write"), [bad], {})
+                written.append(bad)
+            except PyRaise:
+                pass
+            r1 = it.call(D, [], {"n": SInt(vs[1]), "s": "r1", "_generated": GEN})
+            it.call(it.getattr_(w, "write"), [r1], {})
+            written.append(r1)
+            it.call(it.getattr_(w, "close"), [], {})
+            try:
+                back, err = rd(path), None
+            except PyRaise as e:
+                back, err = [], f"{e.cls_name}: {e}"
+            return written, back, err
+        return th
+
+    for wname in ("AvroWriter",):
+        name = f"C17.refused.step[{wname}, counters of the writer at arbitrary values, x w then close]"
+        pack.add(Obligation(name, lambda tier, name=name, wname=wname: prove_paths(name, th_refused_step(wname), judge_history, lambda m_, p: {k_: model_value(m_, v_) for k_, v_ in STATE.items()}, allow_raise=("error",)),
+                            replay=lambda w, wname=wname: {"call": "c17_refused_step", "args": {"writer": wname, "accepted_before": max([1] + [v for v in w.values() if isinstance(v, int) and 0 <= v <= 5000])}}, functions=FU,
+                            mode="inductive step: one accepted write, the writer's integer attributes havocked (>= their value), a refused write, an accepted write, close"))
+
     for wname in WRITERS:
         for nops in range(0, 4):
             for body in itertools.product("wf", repeat=nops):
